@@ -3,6 +3,7 @@ package namesys
 import (
 	"time"
 
+	"github.com/ipfs/boxo/ipns"
 	"github.com/ipfs/boxo/path"
 )
 
@@ -11,6 +12,18 @@ type cacheEntry struct {
 	ttl      time.Duration // is the ttl of this entry
 	lastMod  time.Time     // is the last time this entry was modified
 	cacheEOL time.Time     // is until when we keep this entry in cache
+}
+
+// cacheKey returns the key under which the resolution of "/ipns/<root>" is kept
+// in the static map and in the cache. An IPNS name is keyed by its canonical
+// string form, so that every textual encoding of the same name (base58 peer ID,
+// base36 or base32 CID) shares the one entry that Publish updates. Any other
+// root (a DNSLink domain) is keyed by its path string.
+func cacheKey(root string) string {
+	if name, err := ipns.NameFromString(root); err == nil {
+		return name.String()
+	}
+	return ipns.NamespacePrefix + root
 }
 
 func (ns *namesys) cacheGet(name string) (path.Path, time.Duration, time.Time, bool) {
